@@ -200,6 +200,28 @@ Example C10_compile_wellformed_example :
 Proof. exact full_example. Qed.
 Print Assumptions C10_compile_wellformed_example.
 
+(* the same theorem with the side conditions stated on the module tree itself:
+   [module_in_range M] = in every card of every function of M and of its submodules, integer / float
+   literals fit i64 / 64 bits and the strings copied into the data section (string literals, native
+   function names, ReadVar / SetVar names) are valid UTF-8.  The standard library, which into_ir_stream
+   adds, satisfies it (evaluated); into_ir_stream only rearranges functions and gives them 32-bit handles. *)
+From Cao Require Import CompilerFlatten.
+Theorem C10_compile_wellformed_module :
+  forall (M : module) (o : options) (B : compiled),
+    compile M o = COk B ->
+    module_in_range M = true ->
+    (N.of_nat (length (p_bytecode B)) < 2147483648)%N ->
+    (N.of_nat (length (p_data B)) < 4294967296)%N ->
+    wellformed_gen false B /\ trace_complete B.
+Proof. exact compile_wellformed_module. Qed.
+Print Assumptions C10_compile_wellformed_module.
+
+Theorem C10_module_in_range_program :
+  forall (M : module) (o : options),
+    module_in_range M = true -> program_in_range M o = true /\ program_utf8 M o = true.
+Proof. exact module_in_range_program. Qed.
+Print Assumptions C10_module_in_range_program.
+
 (* observation O-C10-1 (not a violation of C10; confirmed on the real crate by `cao-verif-harness
    c10-witness`: after `brljcd := 1; uqabx := 2` both names read 2): two global variable names with the
    same 32-bit Handle::from_str hash are one variable; the program is well-formed all the same *)
